@@ -422,6 +422,11 @@ func collectWatches(e Expr, w map[string]bool) {
 				w["calls "+normAnchor(s.Val)] = true
 			}
 		}
+		if id, ok := x.Fun.(*EIdent); ok && id.Name == "deferred" && len(x.Args) == 1 {
+			if s, ok := x.Args[0].(*EStr); ok {
+				w["deferred "+normAnchor(s.Val)] = true
+			}
+		}
 		if id, ok := x.Fun.(*EIdent); ok && id.Name == "exhausted" && len(x.Args) == 1 {
 			if n, ok := x.Args[0].(*ENum); ok {
 				w["loopdone "+n.Text] = true
@@ -468,7 +473,7 @@ func (c *FnCtx) setupEntry() {
 		c.setVal(fv, Val{T: n, Ty: fv.Type()})
 	}
 	for k := range c.watch {
-		if strings.HasPrefix(k, "calls ") {
+		if strings.HasPrefix(k, "calls ") || strings.HasPrefix(k, "deferred ") {
 			c.ghost[k] = Val{T: c.mode.idxLit(0), Ty: intTy}
 		}
 		if strings.HasPrefix(k, "loopdone ") {
